@@ -254,10 +254,18 @@ static void run_file(Ctx& cx, const std::string& path, const Expect& ex) {
     ErrorCode ec = ErrorCode::NoError;
     Library full = read_gds(path.c_str(), 0, 1e-2, NULL, &ec);
     if ((int)ec >= (int)ErrorCode::ChecksumError || (ec != ErrorCode::NoError && !(ex.may_miss_reference && ec == ErrorCode::MissingReference))) {
-        // a legal file (written by the library itself or by the independent encoder) that the full load rejects: the lightweight
-        // queries cannot agree with it; reported as a violation, not as a harness failure
-        cx.what = "full load of a legal file";
-        viol(cx, "full_load", "error-code", {}, fmt("read_gds returned code %d (%llu cells) on a legal file", (int)ec, (unsigned long long)full.cell_array.count), "part=full");
+        // a legal file (written by the library itself or by the independent encoder) that the full load rejects: C17 is about
+        // agreement, so this is a violation exactly when a lightweight query still answers (if every reader rejects the file alike
+        // they agree; whether the rejection is justified is C03's question, not C17's)
+        cx.what = "full load of a legal file fails";
+        LibraryInfo info = {};
+        ErrorCode ie = gds_info(path.c_str(), info);
+        info.clear();
+        double uu = 0, pp = 0;
+        ErrorCode ue = gds_units(path.c_str(), uu, pp);
+        if (ie == ErrorCode::NoError || ue == ErrorCode::NoError)
+            viol(cx, "full_load", "queries-answer-where-load-fails", {}, fmt("read_gds returned code %d (%llu cells) but gds_info returned %d and gds_units %d", (int)ec, (unsigned long long)full.cell_array.count, (int)ie, (int)ue), "part=full");
+        else R->count("files_rejected_by_every_reader");
         R->count("cases");
         full.free_all();
         return;
